@@ -196,7 +196,7 @@ def aggregate(results):
         for v in s["violations"]:
             e = viol.setdefault(v["sig"], {"first": s["i"], "msg": v["msg"], "clause": v["clause"], "runs": 0, "some": []})
             e["runs"] += 1
-            if len(e["some"]) < 6:
+            if len(e["some"]) < 48:
                 e["some"].append(s["i"])
     agg["distinct_nontrivial"] = len(digests)
     agg["nontrivial_runs"] = nontriv
@@ -371,7 +371,8 @@ def main(argv=None):
             # code under test keeps in the process (a class-level cache, a module global) can make a run fail only
             # because of the runs before it; such a run does not reproduce alone, so further candidates are tried.
             ok, path, msg, txt = False, None, e["msg"], ""
-            for cand_i in (e.get("some") or [e["first"]]):
+            cands = (e.get("some") or [e["first"]])
+            for cand_i in cands[:6]:
                 case0 = mod.generate(Rng(derive(seed, mod.PROP, cand_i)), a.tier)
                 attempts = []
                 if n_done < 6:
@@ -390,9 +391,28 @@ def main(argv=None):
                         break
                 if ok:
                     break
+            if not ok and len(cands) > 6:
+                # wider net: the remaining candidate runs, unshrunk, each in its own fresh interpreter (in parallel)
+                import concurrent.futures as cf
+
+                def attempt(cand_i):
+                    case = mod.generate(Rng(derive(seed, mod.PROP, cand_i)), a.tier)
+                    pth = write_replay(mod.PROP, seed, cand_i, sig, e["msg"], case, 0)
+                    good, _t = fresh_replay(mod.PROP, pth)
+                    if not good:
+                        try:
+                            os.remove(pth)
+                        except OSError:
+                            pass
+                    return cand_i, pth, good
+
+                with cf.ThreadPoolExecutor(max_workers=max(1, min(16, a.workers))) as ex:
+                    for cand_i, pth, good in ex.map(attempt, cands[6:]):
+                        if good and not ok:
+                            ok, path, e["first"] = True, pth, cand_i
             if not ok:
                 unreproduced.append(sig)
-                print(f"unreproduced: {sig} in {e['runs']} runs (tried {e.get('some')}): no replay reproduces it in a fresh "
+                print(f"unreproduced: {sig} in {e['runs']} runs (tried {len(cands)} of them): no replay reproduces it in a fresh "
                       f"interpreter - the failure depends on state the code under test carries between runs of one process")
                 continue
             print(f"violation {sig} in {e['runs']} runs (first run {e['first']}): {msg}")
